@@ -63,6 +63,9 @@ pub struct World {
     pub solvables: BTreeMap<u32, Solvable>,
     pub version_sets: BTreeMap<u32, VersionSet>,
     pub unions: BTreeMap<u32, Vec<u32>>,
+    /// `filter_candidates` returns its result in reverse input order (the trait does not promise any order)
+    #[serde(default)]
+    pub filter_reversed: bool,
 }
 
 #[derive(Clone, Debug, PartialEq, Eq, Serialize, Deserialize, Default)]
@@ -93,21 +96,26 @@ impl World {
         self.version_sets[&vs].matches.binary_search(&s).is_ok()
     }
 
-    /// Matching candidates of a version set in candidate-list order.
-    pub fn matching(&self, vs: u32) -> Vec<u32> {
-        self.cands(self.vs_name(vs))
+    /// What `filter_candidates(list, vs, inverse)` answers.
+    pub fn filter(&self, list: &[u32], vs: u32, inverse: bool) -> Vec<u32> {
+        let mut out: Vec<u32> = list
             .iter()
             .copied()
-            .filter(|&s| self.vs_matches(vs, s))
-            .collect()
+            .filter(|&s| self.vs_matches(vs, s) != inverse)
+            .collect();
+        if self.filter_reversed {
+            out.reverse();
+        }
+        out
+    }
+
+    /// Matching candidates of a version set as the provider's `filter_candidates` defines them.
+    pub fn matching(&self, vs: u32) -> Vec<u32> {
+        self.filter(self.cands(self.vs_name(vs)), vs, false)
     }
 
     pub fn non_matching(&self, vs: u32) -> Vec<u32> {
-        self.cands(self.vs_name(vs))
-            .iter()
-            .copied()
-            .filter(|&s| !self.vs_matches(vs, s))
-            .collect()
+        self.filter(self.cands(self.vs_name(vs)), vs, true)
     }
 
     pub fn rank_pos(&self, s: u32) -> usize {
